@@ -889,6 +889,7 @@ def check_output_requests(ctx, d, bases, res):
                 seenk.add(key)
                 ctx.violate('property', key, f'with "Units:{o["name"]}, {x["u"]}" the table {where} shows "{yl}" where it showed "{xl}": ' +
                             ('the column is converted but its header keeps the old unit' if kind == 'stale-header' else
+                             'the header changes to the requested unit but the numbers under it do not' if kind == 'header-only' else
                              'not the old column times the conversion factor under the requested unit'), inp=inp, expected=xl, observed=yl)
         for label, xl, yl, kind in bad[:3]:
             key = f'run-output:stale-label:{label}' if kind == 'stale-label' else f'run-output:line:{k}:{label}'
